@@ -323,6 +323,12 @@ def mem_check(ctx, vh, prop, validate=True):
     """The memory::State part of C40 / C41: MC AfcMem + SCHED replay + history validation."""
     r = ctx.tlc("MC_AfcMem", "MC_AfcMem.cfg", timeout=2400, cache=True)
     ctx.require_actions(r, MEM_ACTIONS)
+    if prop == "C41":
+        rm = ctx.tlc("MC_AfcMem", "MC_AfcMem_mutant.cfg", allow_violation=True, cache=True, timeout=600)
+        if rm.violated != "NoResurrection":
+            raise verif.ToolError("self-test failed: spec mutant MC_AfcMem_mutant.cfg gave %r, expected a violation "
+                                  "of NoResurrection" % rm.violated)
+        ctx.cov.setdefault("selftests_mem", []).append("spec mutant clear_resets_ids rejected by TLC (NoResurrection)")
     info, beh = mem_behaviours(ctx, "MC_AfcMem_g.cfg")
     require_graph_actions(info, MEM_ACTIONS)
     total = len(beh)
